@@ -1,4 +1,144 @@
-import Nstd.Str.Model
+import Nstd.Str.LemmasStep
+/-!
+  Property C06 — String is an independent byte-string value matching a reference model.
+
+  Model: `Nstd.Str.Model` (copy-on-write heap of blocks with reference counts, read-only foreign
+  regions for literals / attached memory, slots = String variables + the temporaries the C++ code
+  creates).  Specification: `Nstd.Str.Spec` (one byte list per variable).  `run s ops = some s'`
+  means: the history `ops` executed from `s` without a fault of the checked memory model and
+  ended in `s'`.  All theorems quantify over every number of variables, every content of the
+  foreign regions and every history.
+-/
 namespace Nstd.Str
-theorem placeholder : (init 7 (fun _ => [])).n = 7 := rfl
+
+/-- the states reachable from the initial state by any history of API calls -/
+def Reach (n : Nat) (regs : Nat → List Nat) (s : St) : Prop := ∃ ops, run (init n regs) ops = some s
+
+theorem good_step {s s' : St} (g : Good s) {op : Op} (e : step s op = some s') : Good s' := by
+  obtain ⟨val, E, _⟩ := step_ok g e
+  have hu : userVars s' = userVars s := by simp only [userVars, E.n]
+  refine ⟨E.inv, fun u hu' => ?_⟩
+  rw [hu] at hu'
+  have hne : u ≠ op.target := by
+    intro x; subst x
+    -- the target of a call that did not fail is a user variable
+    have : validVar s op.target = true := by
+      cases op <;> simp only [step] at e <;> split at e <;> first | (rename_i c; first | exact c.1 | exact c) | cases e
+    have := (valid_facts this).2.1
+    have : op.target < userVars s := by
+      have h2 : validVar s op.target = true := by assumption
+      unfold validVar at h2; exact of_decide_eq_true h2
+    omega
+  rw [E.other u hne]; exact g.temps u hu'
+
+theorem good_run {s s' : St} (g : Good s) : ∀ {ops : List Op}, run s ops = some s' → Good s'
+  | [], e => by simp only [run, Option.some.injEq] at e; subst e; exact g
+  | op :: ops, e => by
+    simp only [run, Option.bind_eq_some_iff] at e
+    obtain ⟨s1, h1, e⟩ := e
+    exact good_run (good_step g h1) e
+
+/-- every reachable state satisfies the heap invariant -/
+theorem reach_good {n : Nat} {regs : Nat → List Nat} {s : St} (r : Reach n regs s) : Good s := by
+  obtain ⟨ops, e⟩ := r
+  exact good_run (good_init n regs) e
+
+/-- **Reference counts are exact** (the part of the model C09 builds on): in every reachable state the
+    count stored in a live block equals the number of String variables pointing at it and is positive
+    (a block disappears exactly with its last handle), and every variable points at a live block. -/
+theorem refcount_exact {n : Nat} {regs : Nat → List Nat} {s : St} (r : Reach n regs s) :
+    (∀ b blk, s.heap b = some blk → blk.ref = handlesOf s.n s.vars b ∧ 0 < blk.ref) ∧
+    (∀ v b, s.vars v = .blk b → ∃ blk, s.heap b = some blk) :=
+  ⟨(reach_good r).inv.cnt, (reach_good r).inv.live⟩
+
+/-- **Refinement** (for the calls `Spec.newVal` specifies): after any history that the specification
+    covers, every variable holds exactly the bytes the reference byte list holds.
+    `_partial`: `Spec.newVal` has no clause yet for replace(char,char), toLowerCase/toUpperCase, trim,
+    token, replace(String,String); for those calls only `independent`, `foreign_untouched`,
+    `cstr_terminated` and `refcount_exact` are proved (see OPEN below). -/
+theorem refines_partial {s s' : St} (g : Good s) : ∀ {ops : List Op} {σ' : Nat → List Byte},
+    run s ops = some s' → Spec.run s.regs (absVar s) ops = some σ' → ∀ w, absVar s' w = σ' w
+  | [], σ', e, es => by
+    simp only [run, Option.some.injEq] at e; subst e
+    simp only [Spec.run, Option.some.injEq] at es; subst es
+    intro w; rfl
+  | op :: ops, σ', e, es => by
+    simp only [run, Option.bind_eq_some_iff] at e
+    obtain ⟨s1, h1, e⟩ := e
+    simp only [Spec.run, Option.bind_eq_some_iff, Spec.step, Option.map_eq_some_iff] at es
+    obtain ⟨σ1, ⟨val, hval, rfl⟩, es⟩ := es
+    obtain ⟨val', E, hx⟩ := step_ok g h1
+    have hv := hx val hval
+    subst hv
+    have eqf : absVar s1 = upd (absVar s) op.target val' := by
+      funext w
+      by_cases c : w = op.target
+      · subst c; rw [upd_same]; exact E.self
+      · rw [upd_other _ _ _ _ c]; exact E.other w c
+    have := refines_partial (good_step g h1) e (σ' := σ') (by rw [E.regs, eqf]; exact es)
+    exact this
+
+theorem refines_from_init_partial (n : Nat) (regs : Nat → List Nat) (ops : List Op) (s : St)
+    (σ : Nat → List Byte) (e : run (init n regs) ops = some s)
+    (es : Spec.run regs (fun _ => []) ops = some σ) : ∀ w, absVar s w = σ w := by
+  have h0 : absVar (init n regs) = fun _ => [] := by funext w; simp [absVar, init]
+  exact refines_partial (good_init n regs) e (by rw [h0]; exact es)
+
+/- OPEN: refines
+   theorem refines (n regs ops s) (e : run (init n regs) ops = some s) :
+       ∃ σ, Spec.run regs (fun _ => []) ops = some σ ∧ ∀ w, absVar s w = σ w
+   with `Spec.newVal` total.  Missing: the value clauses (and their proofs) for
+   replaceC / lower / upper (`Spec.mapCStr`), trim, tokenC / tokenS, replaceS / replaceL.
+   For these calls the effect lemmas (`eff_mapChars`, `eff_trim`, `eff_tokenC`, `eff_tokenS`,
+   `eff_replaceS`) give "some value, nothing else changes" only; the values are compared with the
+   Python `bytes` reference by the correspondence run of the check. -/
+
+/-- **Independence**: a call changes the value of its target variable only — whatever block sharing
+    (lazy copies) exists between the variables, and also when an argument is the target itself. -/
+theorem independent {n : Nat} {regs : Nat → List Nat} {s s' : St} (r : Reach n regs s) {op : Op}
+    (e : step s op = some s') : ∀ w, w ≠ op.target → absVar s' w = absVar s w := by
+  obtain ⟨_, E, _⟩ := step_ok (reach_good r) e
+  exact E.other
+
+/-- **Foreign memory is never written**: no call changes a byte of a literal or of attached memory
+    (including the guard byte behind it).  (In the model a store through a pointer that is not an
+    exclusively owned heap block is a fault, so a stray store attempt would show as `step … = none`.) -/
+theorem foreign_untouched {n : Nat} {regs : Nat → List Nat} {s : St} (r : Reach n regs s) : s.regs = regs := by
+  obtain ⟨ops, e⟩ := r
+  have : ∀ {ops : List Op} {s0 : St}, Good s0 → run s0 ops = some s → s.regs = s0.regs := by
+    intro ops
+    induction ops with
+    | nil => intro s0 _ e; simp only [run, Option.some.injEq] at e; subst e; rfl
+    | cons op ops ih =>
+      intro s0 g e
+      simp only [run, Option.bind_eq_some_iff] at e
+      obtain ⟨s1, h1, e⟩ := e
+      obtain ⟨_, E, _⟩ := step_ok g h1
+      rw [ih (good_step g h1) e, E.regs]
+  exact this (good_init n regs) e
+
+/-- **Owned text is always terminated**: in every reachable state a String that owns its block has
+    `str[length()] == 0`. -/
+theorem owned_terminated {n : Nat} {regs : Nat → List Nat} {s : St} (r : Reach n regs s) {v b : Nat}
+    (hv : s.vars v = .blk b) : termByte s v = some (some 0) := by
+  have h := (reach_good r).inv
+  obtain ⟨blk, hb⟩ := h.live v b hv
+  simp only [termByte, desc_blk hv hb, memOf, hb, Option.bind_eq_bind, Option.bind_some, Option.map_some, Nat.zero_add]
+  exact (h.wf b blk hb).2.2
+
+/-- **The C string view is NUL-terminated at `length()`** — for every variable in every reachable
+    state (empty, literal, attached without terminator, owned, shared), and taking the view does not
+    change any value. -/
+theorem cstr_terminated {n : Nat} {regs : Nat → List Nat} {s s' : St} (r : Reach n regs s) {v : Nat}
+    (e : step s (.cview v) = some s') :
+    termByte s' v = some (some 0) ∧ ∀ w, absVar s' w = absVar s w := by
+  have g := reach_good r
+  simp only [step] at e
+  split at e
+  · rename_i c
+    have V := valid_facts c
+    obtain ⟨E, t⟩ := eff_cview g.inv V.1 e
+    exact ⟨t, E.silent.abs⟩
+  · cases e
+
 end Nstd.Str
